@@ -361,21 +361,21 @@ Theorem C14_model_satisfies_P_sub :
 Proof. exact model_satisfies_P_sub. Qed.
 Print Assumptions C14_model_satisfies_P_sub.
 
-(* P_att true on an observed attest step ([prev]: the jobs observed before it, [kn]: the latest
-   subscribe inputs per epoch) implies: nothing scheduled is lost; names are distinct; the real
+(* P_att true on an observed attest step ([prev]: the jobs observed before it, [kn_all]: the latest
+   subscribe inputs per epoch, [kn]: those that no head event since was entitled to drop) implies: nothing scheduled is lost; names are distinct; the real
    Aggregate requested and submitted what the job carries; every new job is for an attested
    committee, not in the past, at StartOfSlot + delay, for one of our validators with that duty
    and its own slot signature (a selected one, when the answer was self-consistent); and every
    attested committee with a selected validator has a job. *)
 Theorem C14_P_att_sound :
-  forall pr kn prev dslot cur no_acct atts jobs,
-    P_att pr kn prev dslot cur false no_acct atts jobs = true ->
+  forall pr kn_all kn prev dslot cur no_acct atts jobs,
+    P_att pr kn_all kn prev dslot cur false no_acct atts jobs = true ->
     let js := map fst jobs in
     (forall j, In j prev -> In j js) /\
     NoDup (map jkey js) /\
     (forall j o, In (j, o) jobs -> o = Some (j_dslot j, j_root j, j_val j, j_sig j)) /\
     (forall j, In j js -> ~ In (jkey j) (map jkey prev) ->
-       exists sf ds, known_get (dslot / spe pr) kn = Some (sf, ds) /\
+       exists sf ds, known_get (dslot / spe pr) kn_all = Some (sf, ds) /\
          (exists a, In a atts /\ akey a = jkey j /\ a_root a = j_root j) /\
          cur <= j_slot j /\ j_time j = j_slot j * slot_ms pr + delay_ms pr /\ j_dslot j = j_slot j /\
          acct_ok_of no_acct (j_val j) = true /\
